@@ -101,12 +101,11 @@ TraceSpec == TraceInit /\ [][TraceNext]_tvars
 Mark == /\ CheckInv("AtMostOnce", AtMostOnce) /\ CheckInv("MatchingOK", MatchingOK)
         /\ CheckInv("OnePerVal", OnePerVal) /\ CheckInv("OneSharePerKey", OneSharePerKey)
         /\ CheckInv("NoLostTrigger", NoLostTrigger) /\ CheckInv("IndexOK", IndexOK) /\ CheckInv("CapOK", CapOK)
-        /\ HWMark
 \* for ParSigDBTrace_ascoded.cfg (the two defects of the pinned tree switched on): everything but the two invariants they break
 MarkAsCoded == /\ CheckInv("MatchingOK", MatchingOK) /\ CheckInv("OnePerVal", OnePerVal)
                /\ CheckInv("OneSharePerKey", OneSharePerKey) /\ CheckInv("IndexOK", IndexOK) /\ CheckInv("CapOK", CapOK)
-               /\ HWMark
 ActOK == /\ CheckInv("FiresWhenReached", FiresWhenReachedA)
          /\ CheckInv("RejectKeepsStore", RejectKeepsStoreA)
          /\ CheckInv("FiredFromStore", FiredFromStoreA)
+         /\ HWMarkA
 ====
